@@ -150,8 +150,8 @@ def GoodU : G → List (Nat × List Nat) → Prop
   | g, s :: rest => InstallFresh g s.1 ∧ GoodU (step g s.1 s.2) rest
 
 theorem nodup_step {db0 : Nat → Option Entry} {g : G} (i : Nat) (hint : List Nat) (inv : Inv db0 g) (hshape : Shape g)
-    (hf : InstallFresh g i) (hn : NoDupKeys g.db) : NoDupKeys (step g i hint).db := by
-  rcases step_spec g i hint with ⟨_, h⟩ | ⟨_, h⟩ | ⟨hpc, h⟩ | ⟨_, _, _, h⟩
+    (hck : ChecksAll g) (hf : InstallFresh g i) (hn : NoDupKeys g.db) : NoDupKeys (step g i hint).db := by
+  rcases step_spec g hck i hint with ⟨_, h⟩ | ⟨_, h⟩ | ⟨hpc, h⟩ | ⟨_, _, _, h⟩
   · rw [h]; exact hn
   · rw [h.db]; exact hn
   · rw [h.db]
@@ -172,8 +172,8 @@ theorem nodup_run {db0 : Nat → Option Entry} : ∀ (sched : List (Nat × List 
   | nil => intro g _ _ _ hn; exact hn
   | cons s rest ih =>
     intro g inv hg hu hn
-    obtain ⟨hc, hs, hb, hrest⟩ := hg
-    exact ih _ (inv_step s.1 s.2 inv hc hs hb) hrest hu.2 (nodup_step s.1 s.2 inv hs hu.1 hn)
+    obtain ⟨hc, hs, hk, hb, hrest⟩ := hg
+    exact ih _ (inv_step s.1 s.2 inv hc hs hk hb) hrest hu.2 (nodup_step s.1 s.2 inv hs hk hu.1 hn)
 
 /-- equal keys live on the same page, for every committed item and every item some transaction adds -/
 def KeysOnOnePage (g : G) : Prop :=
